@@ -420,6 +420,8 @@ func ambientCallee(fn *types.Func) string {
 	switch {
 	case p == "time" && !isMethod && n == "LoadLocation":
 		return "time.LoadLocation" // the name "Local" answers the zone of the process ($TZ, /etc/localtime)
+	case p == "time" && !isMethod && (n == "Unix" || n == "UnixMilli" || n == "UnixMicro"):
+		return "time.Unix" // the result carries the zone of the process until it is moved with In(..)
 	case p == "time" && isMethod && n == "Local":
 		return "time.Time.Local"
 	case p == "time" && !isMethod && (n == "Now" || n == "Since" || n == "Until" || n == "After" || n == "Tick" || n == "NewTimer" || n == "NewTicker" || n == "AfterFunc"):
